@@ -16,6 +16,7 @@ structure ClosedR (P : BSt → Prop) : Prop where
   emitInj : ∀ s a b c d, P s → P (s.emit (.inj a b c d))
   clock : ∀ s n, P s → P { s with now := n }
   gone : ∀ s, P s → P { s with backendGone := true }
+  lastFlush : ∀ s n, P s → P { s with lastFlush := n }
   refresh : ∀ s, P s → P (refreshCache s)
   allEmpty : ∀ s, P s → P (allEmpty s).1
   hasPending : ∀ s, P s → P (hasPending s).1
@@ -162,6 +163,21 @@ theorem batchLoop_okR {inj : BSt → Nat → BSt} (hi : InjOK P inj) :
       · exact hl
       · exact batchLoop_okR hi fuel _ (hi _ 4 hl).1
 
+theorem flushGate_okR {inj : BSt → Nat → BSt} (hi : InjOK P inj) (s : BSt) (n : Nat) (hs : P s) : P (flushGate inj s n) := by
+  unfold flushGate
+  split
+  · exact hc.flushSinks _ hs
+  · simp only []
+    split
+    · exact hc.flushSinks _ (hc.lastFlush _ _ (hi _ 7 hs).1)
+    · exact (hi _ 7 hs).1
+
+theorem preEraseFlush_okR (s : BSt) (hs : P s) : P (preEraseFlush s) := by
+  unfold preEraseFlush
+  split
+  · exact hc.flushSinks _ hs
+  · exact hs
+
 theorem poll_okR {inj : BSt → Nat → BSt} (hi : InjOK P inj) (hcl : ∀ s, P s → P (cleanupLoggers inj s))
     (s : BSt) (hs : P s) : P (poll inj s) := by
   unfold poll
@@ -173,10 +189,10 @@ theorem poll_okR {inj : BSt → Nat → BSt} (hi : InjOK P inj) (hcl : ∀ s, P 
   · split
     · exact processLowest_okR hc hi _ hp
     · exact batchLoop_okR hc hi _ _ hp
-  · have h3 := checkFailures_okR hc hi _ (hc.flushSinks _ (hi _ 5 hp).1)
+  · have h3 := checkFailures_okR hc hi _ (flushGate_okR hc hi (inj s1 5) (inj s1 5).cfg.flushInterval (hi _ 5 hp).1)
     have h4 := hc.allEmpty _ h3
     split
-    · exact hcl _ (hc.cleanupContexts _ h4)
+    · exact hcl _ (preEraseFlush_okR hc _ (hc.cleanupContexts _ h4))
     · exact h4
 
 theorem exitLoop_okR {inj : BSt → Nat → BSt} (hi : InjOK P inj) (hcl : ∀ s, P s → P (cleanupLoggers inj s)) (tick : Nat) :
@@ -187,7 +203,7 @@ theorem exitLoop_okR {inj : BSt → Nat → BSt} (hi : InjOK P inj) (hcl : ∀ s
     simp only []
     have h1 := hc.allEmpty s hs
     split
-    · exact hcl _ (hc.cleanupContexts _ (hc.flushSinks _ (checkFailures_okR hc hi _ h1)))
+    · exact hcl _ (preEraseFlush_okR hc _ (hc.cleanupContexts _ (hc.flushSinks _ (checkFailures_okR hc hi _ h1))))
     · have h2 := populate_okR hc hi _ (hc.clock _ ((allEmpty s).1.now + tick) h1)
       rcases hpe : populate inj { (allEmpty s).1 with now := (allEmpty s).1.now + tick } with ⟨s1, count⟩
       rw [hpe] at h2
@@ -228,6 +244,7 @@ theorem PR_closedR (pend : List Nat) : ClosedR (PR pend) where
   emitInj := fun s a b c d h => ⟨FInv_closed.emitInj s a b c d h.1, RP_of_fields rfl rfl h.2⟩
   clock := fun s n h => ⟨FInv_closed.clock s n h.1, RP_of_fields rfl rfl h.2⟩
   gone := fun s h => ⟨FInv_closed.gone s h.1, RP_of_fields rfl rfl h.2⟩
+  lastFlush := fun s n h => ⟨FInv_closed.lastFlush s n h.1, RP_of_fields rfl rfl h.2⟩
   refresh := fun s h => ⟨FInv_closed.refresh s h.1, RP_of_sview h.2 (by unfold refreshCache; split <;> rfl)⟩
   allEmpty := fun s h => ⟨FInv_closed.allEmpty s h.1, RP_of_sview h.2 (allEmpty_sview s)⟩
   hasPending := fun s h => ⟨FInv_closed.hasPending s h.1, RP_of_sview h.2 (hasPending_sview s)⟩
@@ -458,6 +475,7 @@ theorem FD_closed : Closed FD where
   emitInj := fun s a b c d h => ⟨FInv_closed.emitInj s a b c d h.1, DT_emit_plain h.2 _ (fun _ => rfl)⟩
   clock := fun s n h => ⟨FInv_closed.clock s n h.1, DT_of_fields rfl rfl h.2⟩
   gone := fun s h => ⟨FInv_closed.gone s h.1, DT_of_fields rfl rfl h.2⟩
+  lastFlush := fun s n h => ⟨FInv_closed.lastFlush s n h.1, DT_of_fields rfl rfl h.2⟩
   refresh := fun s h => ⟨FInv_closed.refresh s h.1, DT_of_sview h.2 (by unfold refreshCache; split <;> rfl)⟩
   allEmpty := fun s h => ⟨FInv_closed.allEmpty s h.1, DT_of_sview h.2 (allEmpty_sview s)⟩
   hasPending := fun s h => ⟨FInv_closed.hasPending s h.1, DT_of_sview h.2 (hasPending_sview s)⟩
